@@ -110,16 +110,16 @@ type Node interface {
 
 // TypeInfo describes a palette type (generated table, palette_gen.go).
 type TypeInfo struct {
-	Idx                          int
-	TypeName                     string
-	A, B, C                      bool
-	Primary, Lazy, Qualifier     bool
-	Init, Aps                    bool
-	Runner, Closer               bool
-	Ordered, Priority            bool // Ordered: has Order(); Priority: has Priority()
-	Mark, Kind                   bool
-	New                          func() Node
-	DefaultName                  string // package path + type name
+	Idx                      int
+	TypeName                 string
+	A, B, C                  bool
+	Primary, Lazy, Qualifier bool
+	Init, Aps                bool
+	Runner, Closer           bool
+	Ordered, Priority        bool // Ordered: has Order(); Priority: has Priority()
+	Mark, Kind               bool
+	New                      func() Node
+	DefaultName              string // package path + type name
 }
 
 const PkgPath = "verifharness/world"
